@@ -6,7 +6,7 @@ use serde_json::{json, Value};
 
 /// One cell as canonical JSON: null, integer, bool, string.
 pub fn cell(a: &ArrayRef, i: usize) -> Value {
-    if a.is_null(i) {
+    if a.is_null(i) || a.data_type() == &DataType::Null {
         return Value::Null;
     }
     match a.data_type() {
@@ -23,6 +23,10 @@ pub fn cell(a: &ArrayRef, i: usize) -> Value {
         DataType::Utf8 => json!(a.as_string::<i32>().value(i)),
         DataType::LargeUtf8 => json!(a.as_string::<i64>().value(i)),
         DataType::Utf8View => json!(a.as_string_view().value(i)),
+        DataType::Date32 | DataType::Date64 | DataType::Timestamp(_, _) | DataType::Decimal128(_, _) => {
+            let c = arrow::compute::cast(a, &DataType::Utf8).expect("to utf8");
+            cell(&c, i)
+        }
         DataType::Dictionary(_, _) => {
             let c = arrow::compute::cast(a, &DataType::Utf8).expect("dictionary to utf8");
             cell(&c, i)
